@@ -1,8 +1,115 @@
 import AFV.Driver.Proto
+import AFV.Model.Pareto
+import AFV.Spec.Pareto
+import AFV.Spec.ParetoHyp
 namespace AFV.Driver.C11
-open Lean AFV.Proto
+open Lean AFV.Proto AFV.Pareto
 
-/-- Handler for property C11 requests (stub: not implemented yet). -/
-def handle (_req : Json) : Json := err "unimplemented"
+def ev? (j : Json) : Option EV :=
+  match j with
+  | .str "inf" => some EV.pinf
+  | .str "-inf" => some EV.ninf
+  | _ => (getInt? j).map EV.fin
+
+def row? (j : Json) : Option Row := do
+  let a ← getArr? j
+  a.toList.mapM ev?
+
+def rows? (j : Json) : Option (List Row) := do
+  let a ← getArr? j
+  a.toList.mapM row?
+
+def ofEV : EV → Json
+  | EV.pinf => Json.str "inf"
+  | EV.ninf => Json.str "-inf"
+  | EV.fin k => ofInt k
+
+/-- ops:
+  {"op":"mask","scale":S,"goals":[g…],"data":[[v…]…],"distinct":b?,"cast":[[v…]…]?,"repairs":{"wide":b,"sweep_first":b}?}
+     repairs select the model of a repaired code version (default: the code as it is)
+     v = integer (value·2^S) | "inf" | "-inf"
+     → {"model":[b…]|"ValueError","spec":[b…]|null,"branches":[…],"H":{wf,cast,sweep,key},"cast_ok":b}
+  {"op":"exh","scale":S,"goals":[g…],"alphabet":[v…],"rows":r,"cols":c,"from":a,"count":k,"full":b?}
+     matrix number idx has entry (i,j) = alphabet[(idx / |alphabet|^(i*c+j)) % |alphabet|]
+     → [specBits…]  or, with full, [[modelBits,specBits,Hbits]…]   (bit i = row i kept; H: cast=1,sweep=2,key=4)
+  {"op":"cast","scale":S,"vals":[v…]} → [v…]         (float32 rounding of the model)
+  {"op":"key","scale":S,"row":[v…]}   → v | "nan"     (float row-sum key of the model) -/
+def handle (req : Json) : Json :=
+  match (field? req "op").bind getStr? with
+  | some "mask" =>
+    match (field? req "scale").bind getNat?, (field? req "goals").bind strList?,
+          (field? req "data").bind rows? with
+    | some S, some goals, some data =>
+      let distinct := ((field? req "distinct").bind getBool?).getD true
+      let rp := field? req "repairs"
+      let cfg := stdCfg S (((rp.bind (field? · "wide")).bind getBool?).getD false)
+        (((rp.bind (field? · "sweep_first")).bind getBool?).getD false)
+      let castOk : Bool :=
+        match (field? req "cast").bind rows? with
+        | some c => c == data.map (·.map (castF32 S))
+        | none => true
+      match goals.mapM parseGoal with
+      | none =>
+        Json.mkObj [("model", match fastParetoMaskStr cfg goals data distinct with
+                              | some m => ofBoolList m
+                              | none => Json.str "ValueError"),
+                    ("spec", Json.null), ("branches", Json.arr #[]), ("cast_ok", Json.bool castOk)]
+      | some gs =>
+        let cols := effCols cfg gs data
+        let br := if data.length ≤ 1 then ["n<=1"] else if cols.isEmpty then ["no-eff-cols"] else
+          (groupsOf gs data cols).map (groupBranch cols.length)
+        let spec := if distinct then paretoMaskSpec cfg.one gs data else frontMaskSpec cfg.one gs data
+        Json.mkObj [("model", ofBoolList (fastParetoMask cfg gs data distinct)),
+                    ("spec", ofBoolList spec),
+                    ("branches", ofStrList br),
+                    ("H", Json.mkObj [("wf", Json.bool (WF cfg gs data)), ("cast", Json.bool (Hcast cfg gs data)),
+                                      ("sweep", Json.bool (Hsweep cfg gs data)), ("key", Json.bool (Hkey cfg gs data))]),
+                    ("key_exact", Json.bool (keyExact cfg gs data)),
+                    ("cast_ok", Json.bool castOk)]
+    | _, _, _ => err "malformed"
+  | some "exh" =>
+    -- exhaustive small scope: matrix number `idx` has entry (i,j) = alphabet[(idx / b^(i*c+j)) % b]
+    match (field? req "scale").bind getNat?, (field? req "goals").bind strList?,
+          (field? req "alphabet").bind row?, (field? req "rows").bind getNat?,
+          (field? req "cols").bind getNat?, (field? req "from").bind getNat?,
+          (field? req "count").bind getNat? with
+    | some S, some goals, some alpha, some r, some c, some a, some k =>
+      match goals.mapM parseGoal with
+      | none => err "malformed"
+      | some gs =>
+        let rp := field? req "repairs"
+        let cfg := stdCfg S (((rp.bind (field? · "wide")).bind getBool?).getD false)
+          (((rp.bind (field? · "sweep_first")).bind getBool?).getD false)
+        let b := alpha.length
+        let bits (m : List Bool) : Nat := (m.zipIdx.map fun p => if p.1 then 2 ^ p.2 else 0).foldl (· + ·) 0
+        let full := ((field? req "full").bind getBool?).getD false
+        if !full then
+          Json.arr ((List.range k).map fun t =>
+            let idx := a + t
+            let data : List Row := (List.range r).map fun i => (List.range c).map fun j =>
+              alpha.getD ((idx / b ^ (i * c + j)) % b) (EV.fin 0)
+            ofNat (bits (paretoMaskSpec cfg.one gs data))).toArray
+        else
+        Json.arr ((List.range k).map fun t =>
+          let idx := a + t
+          let data : List Row := (List.range r).map fun i => (List.range c).map fun j =>
+            alpha.getD ((idx / b ^ (i * c + j)) % b) (EV.fin 0)
+          let h := (if Hcast cfg gs data then 1 else 0) + (if Hsweep cfg gs data then 2 else 0) +
+                   (if Hkey cfg gs data then 4 else 0)
+          Json.arr #[ofNat (bits (fastParetoMask cfg gs data)), ofNat (bits (paretoMaskSpec cfg.one gs data)),
+                     ofNat h]).toArray
+    | _, _, _, _, _, _, _ => err "malformed"
+  | some "cast" =>
+    match (field? req "scale").bind getNat?, (field? req "vals").bind row? with
+    | some S, some vs => Json.arr ((vs.map (castF32 S)).map ofEV).toArray
+    | _, _ => err "malformed"
+  | some "key" =>
+    match (field? req "scale").bind getNat?, (field? req "row").bind row? with
+    | some S, some r =>
+      match sumKeyF S r with
+      | FKey.nan => Json.str "nan"
+      | FKey.val v => ofEV v
+    | _, _ => err "malformed"
+  | _ => err "bad-op"
 
 end AFV.Driver.C11
